@@ -58,6 +58,8 @@ Pool ==
     With(Base, "matrix", "setup_os"), With(Base, "matrix", "setup_os_eadj"), With(Base, "matrix", "setup_os_erem"), With(Base, "matrix", "adj_base_erem"),
     \* a matrix without dimensions whose one adjustment only says skip: true / false / a reason / no matrix at all are four contents
     With(Base, "matrix", "skiponly_t"), With(Base, "matrix", "skiponly_f"), With(Base, "matrix", "skiponly_s"),
+    \* ... and in such a matrix a setup that was never allocated and an allocated one without dimensions (`setup: {}`) are the same content
+    With(Base, "matrix", "skiponly_t_es"),
     \* one shadowed pipeline variable among many that are not: all the others are signed, on every run
     [With(Base, "env", E(FALSE, ("A" :> "1"))) EXCEPT !.penv = ("A" :> "pa") @@ ("B" :> "pb") @@ ("C" :> "pc") @@ ("D" :> "pd") @@ ("E" :> "pe") @@ ("F" :> "pf") @@ ("G" :> "pg")],
     [With(Base, "env", E(FALSE, ("A" :> "1"))) EXCEPT !.penv = ("A" :> "pa") @@ ("B" :> "pb") @@ ("C" :> "pc") @@ ("D" :> "pd") @@ ("E" :> "pe") @@ ("F" :> "pf") @@ ("G" :> "other")],
